@@ -475,6 +475,44 @@ func runC04(env *Env) {
 			{"zzTier = gold", map[string]any{"zzTier": "gold"}, "e1"},
 			{"zzVip = false, zzTier = gold", map[string]any{"zzVip": false, "zzTier": "gold"}, "e1"},
 		}
+		// a second document: the true condition is not the first one the token evaluates and compares a variable with a
+		// literal of another type
+		q := &Prog{}
+		q.Node("start", "start")
+		y := q.Node("xor", "S")
+		for i := 0; i < 3; i++ {
+			q.Node("end", fmt.Sprintf("e%d", i))
+		}
+		q.Flow("start", "S", "")
+		q.Flow("S", "e0", "zzVip == true")
+		q.Flow("S", "e1", `zzTier != "gold"`)
+		y.Default = q.Flow("S", "e2", "").ID
+		for _, k := range []kind{
+			{"zzVip = false, zzTier = 5 (second document: zzTier != \"gold\" listed second)", map[string]any{"zzVip": false, "zzTier": 5}, "e1"},
+			{"zzVip = false, zzTier = gold (second document)", map[string]any{"zzVip": false, "zzTier": "gold"}, "e2"},
+			{"zzVip = false, zzTier = silver (second document)", map[string]any{"zzVip": false, "zzTier": "silver"}, "e1"},
+		} {
+			cs := "one instance: " + k.name
+			env.Current(cs)
+			defs, err := ParseDefs(q.XML(""))
+			must(err)
+			in, err := StartInst(defs, InstOpt{Vars: k.vars})
+			must(err)
+			rep.Evaluations++
+			rep.Nontrivial++
+			rep.Count("instances_with_different_variables")
+			in.WaitCease(tmoStep)
+			reached := []string{}
+			for _, e := range in.Log() {
+				if e.K == "visit" && strings.HasPrefix(e.N, "e") {
+					reached = append(reached, e.N)
+				}
+			}
+			if len(reached) != 1 || reached[0] != k.want {
+				rep.Violate("C04-choice", cs, fmt.Sprintf("reached %v, expected [%s]; log: %s", reached, k.want, logString(in.Log())))
+			}
+			in.Close()
+		}
 		order := []int{0, 1, 0, 2, 3, 0, 4, 2, 1, 3, 0, 2, 4, 0, 3, 1, 2, 0}
 		errsOf := map[int]int{}
 		for step, ki := range order {
